@@ -408,9 +408,22 @@ def gen_program(st, flavour, tier):
                 nd["timeout"] = rp_.choice([None, 5, 30, 120])
         if t == "rule":
             nd["resp"] = rp_.choice(["pass", "fail", "info", "none"])
+        if t == "rp":
+            nd["prio"] = rp_.choice([0, 0, 0, 1, 5])
+        if t not in ("parser", "rp"):
+            # less common declaration forms
+            r_ = rp_.random()
+            if r_ < 0.08 and (nd["req"] or nd["groups"]):
+                nd["decl_form"] = "requires_kw"             # deprecated: TYPE(requires=[...])
+            if len(nd["opt"]) == 1 and rp_.random() < 0.3:
+                nd["opt_single"] = True                      # optional=component instead of optional=[component]
+            if nd["req"] and rp_.random() < 0.06:
+                nd["req"] = nd["req"] + [nd["req"][0]]      # the same dependency listed twice
+            if t == "plain" and prev and rp_.random() < 0.3:
+                nd["implicit"] = rp_.sample(prev, 1)         # class-level requires of the component type
         # ---- fault plan
         if t != "rp" and rf.random() < fl["fault"]:
-            kinds = ["skip", "skip", "boom", "verr", "kerr", "none", "ce", "cpe", "cpe"]
+            kinds = ["skip", "skip", "boom", "verr", "kerr", "none", "ce", "cpe", "cpe", "zero", "emptystr"]
             if t == "datasource":
                 kinds += ["tmo", "slow", "slow"] if hostctx else ["tmo"]
             if flavour == "C03" and rf.random() < 0.04:
@@ -428,9 +441,11 @@ def gen_program(st, flavour, tier):
         if t == "parser":
             for e in range(4):
                 if rf.random() < fl["fault"]:
-                    nd["eouts"][e] = rf.choice(["skip", "skip", "ce", "cpe", "boom", "verr", "none"])
+                    nd["eouts"][e] = rf.choice(["skip", "skip", "ce", "cpe", "boom", "verr", "none", "zero"])
         if t != "rp" and rk.random() < fl["disabled"]:
             nd["enabled"] = False
+            if rk.random() < 0.4:
+                nd["disable_by_name"] = True                 # dr.set_enabled("module.name", False)
         nodes.append(nd)
         cluster_of.append(cl)
     sac = rk.random() < (0.12 if flavour in ("C01", "C02", "C04") else 0.05)
@@ -488,6 +503,10 @@ def gen_driver(st, case, flavour, kinds=None):
     if k.endswith("_n") and not fresh_brokers_ok(case):
         k = k[:-2]
     d = {"kind": k}
+    if k != "order" and not case.get("graph_drop") and rs.random() < 0.25:
+        d["entry"] = rs.choice(["list", "single"])        # dr.run([components]) / dr.run(component) instead of a graph dict
+    if not k.endswith("_n") and rs.random() < 0.1:
+        d["seed_broker"] = True                           # dr.Broker(seed_broker): a broker copied from a prepared one
     if k == "order":
         d["order_seed"] = rs.getrandbits(32)
     if k == "pool":
@@ -508,7 +527,7 @@ def declaration(nd):
     req = nd["req"]
     groups = nd["groups"]
     gpos = nd.get("gpos") or [len(req)] * len(groups)
-    out = []
+    out = list(nd.get("implicit") or [])           # class-level requirements of the component type come first
     for k in range(len(req) + 1):
         for g, p in zip(groups, gpos):
             if min(p, len(req)) == k:
@@ -652,7 +671,7 @@ def model(case, fixed_f1=True, pool_thread=False):
             continue
         if i not in ing or not en[i]:
             continue
-        req = list(nd["req"])
+        req = list(nd.get("implicit") or []) + list(nd["req"])
         groups = [list(g) for g in nd["groups"]]
         if t == "rp":
             groups = [list(nd.get("impls", []))]
@@ -691,6 +710,8 @@ def model(case, fixed_f1=True, pool_thread=False):
                     tag = "%s#%d" % (name, k)
                     if oc == "value":
                         res.append(value_of(name, (e,)))
+                    elif oc == "zero":
+                        res.append(0)                    # falsy but not None: kept
                     elif oc == "none":
                         pass
                     elif oc == "skip":
@@ -723,7 +744,13 @@ def model(case, fixed_f1=True, pool_thread=False):
                 oc = "alarm"
             else:
                 oc = "value"
-        if oc == "value":
+        if oc in ("zero", "emptystr"):
+            fv = 0 if oc == "zero" else ""
+            if t == "rule":
+                generic("Exception", "")          # not a Response: rejected
+            else:
+                val[i] = fv
+        elif oc == "value":
             if t == "rule" and nd.get("rspec"):
                 exp = rule_expect(nd, args, case.get("max_detail_length") or 65535)
                 if exp[0] == "resp":
@@ -814,6 +841,10 @@ class World(object):
                 return value_of(name, args)
             if oc == "none":
                 return None
+            if oc == "zero":
+                return 0
+            if oc == "emptystr":
+                return ""
             world.fired(oc)
             raise make_exc(oc, tag)
 
@@ -857,7 +888,7 @@ class World(object):
         for i, nd in enumerate(nodes):
             t = nd["type"]
             if t == "rp":
-                rp = RegistryPoint(nd["name"], nd["h"])
+                rp = RegistryPoint(nd["name"], nd["h"], prio=nd.get("prio", 0))
                 objs[i] = rp
                 nlate = nd.get("late", 0)
                 early = nd["impls"][:len(nd["impls"]) - nlate]
@@ -868,12 +899,21 @@ class World(object):
                 continue
             g = objs[i]
             g._body = self.make_body(i, nd)
-            deps = [[objs[j] for j in d] if isinstance(d, list) else objs[d] for d in declaration(nd)]
+            decl = declaration(nd)
+            nimp = len(nd.get("implicit") or [])
+            deps = [[objs[j] for j in d] if isinstance(d, list) else objs[d] for d in decl[nimp:]]
             if nd.get("needs_host"):
                 deps = [HostContext] + deps
             kw = {}
             if nd["opt"]:
                 kw["optional"] = [objs[j] for j in nd["opt"]]
+                if nd.get("opt_single") and len(nd["opt"]) == 1:
+                    kw["optional"] = objs[nd["opt"][0]]
+            if nd.get("decl_form") == "requires_kw" and deps:
+                kw["requires"] = deps
+                deps = []
+            if t in ("datasource",) or nd["name"]:
+                setattr(_mod, nd["name"], g) if nd.get("module", MODNAME) == MODNAME else setattr(_mod2, nd["name"], g)
             if t == "parser":
                 plugins.parser(*deps, continue_on_error=nd.get("coe", True))(g)
             elif t == "datasource":
@@ -888,7 +928,11 @@ class World(object):
                         kw["tags"] = list(nd["rspec"]["tags"])
                     if nd["rspec"].get("links") is not None:
                         kw["links"] = dict(nd["rspec"]["links"])
-                TYPES[t](*deps, **kw)(g)
+                ctype = TYPES[t]
+                if nimp:
+                    # a component type with implicit (class-level) requirements, as third-party types declare them
+                    ctype = type("plainct_implicit", (plainct,), {"requires": [objs[j] for j in nd["implicit"]]})
+                ctype(*deps, **kw)(g)
         self.objs = objs
         self.idx = dict((o, i) for i, o in enumerate(objs))
         if late:
@@ -902,7 +946,10 @@ class World(object):
         # enable / disable
         for i, nd in enumerate(nodes):
             if not nd["enabled"]:
-                dr.set_enabled(objs[i], False)
+                if nd.get("disable_by_name"):
+                    dr.set_enabled(dr.get_name(objs[i]), False)        # by fully qualified name, as configuration does
+                else:
+                    dr.set_enabled(objs[i], False)
         cfg = case.get("enable_cfg")
         if cfg:
             # the property speaks about the components of the program: make sure each has an entry, as any
@@ -1029,6 +1076,23 @@ def run_driver(world, driver, graph):
     if kind.endswith("_n") and not fresh_brokers_ok(world.case):
         kind = kind[:-2]            # (only reachable through shrinking) degrade to the shared-broker variant
     pool = None
+    entry = driver.get("entry")
+    if entry and kind != "order" and not world.case.get("graph_drop"):
+        # other documented forms of the 'components' argument: resolved by the real determine_components()
+        tg = world.case["targets"] if world.case["targets"] is not None else list(range(len(world.objs)))
+        if entry == "single" and len(tg) == 1:
+            graph = world.objs[tg[0]]
+        else:
+            graph = [world.objs[i] for i in tg]
+    if driver.get("seed_broker"):
+        _nb = world.new_broker
+
+        def seeded_copy(observers=True):
+            b0 = _nb(observers)
+            b = dr.Broker(b0)
+            b.store_skips = b0.store_skips
+            return b
+        world.new_broker = seeded_copy
     try:
         if kind == "run":
             b = world.new_broker()
@@ -1461,6 +1525,8 @@ def remove_node(case, k):
         nd["groups"] = [g for g, p in keep if g]
         nd["gpos"] = [p for g, p in keep if g]
         nd["opt"] = remap(nd["opt"])
+        if nd.get("implicit"):
+            nd["implicit"] = remap(nd["implicit"])
         if nd["type"] == "rp":
             nd["impls"] = remap(nd["impls"])
             nd["late"] = min(nd.get("late", 0), max(0, len(nd["impls"]) - 1))
@@ -1521,6 +1587,11 @@ def shrink_program(case):
             c = _copy(case)
             c["nodes"][k]["enabled"] = True
             yield c
+        for fld in ("decl_form", "opt_single", "implicit", "disable_by_name", "prio"):
+            if nd.get(fld):
+                c = _copy(case)
+                c["nodes"][k].pop(fld)
+                yield c
         if nd.get("work") and nd["out"] != "slow":
             c = _copy(case)
             c["nodes"][k]["work"] = 0.0
@@ -1572,6 +1643,11 @@ def shrink_driver(driver):
     k = driver["kind"]
     if k != "run":
         yield {"kind": "run"}
+    for fld in ("entry", "seed_broker"):
+        if driver.get(fld):
+            d = dict(driver)
+            d.pop(fld)
+            yield d
     if k == "pool":
         if driver.get("workers") != 2:
             d = dict(driver)
